@@ -34,6 +34,20 @@ impl PartialOrd for P { fn partial_cmp(&self, o: &Self) -> Option<Ordering> { if
 /// generic wrapper with the std derives
 #[derive(Clone, Copy, Debug, PartialEq, Eq, PartialOrd, Ord, Hash, Default)]
 pub struct W<T>(pub T);
+/// decoys: inherent methods named like the trait methods the generated code calls; fully qualified calls never reach them
+impl<T> W<T> {
+    pub fn eq<R>(&self, _o: R) -> bool { true }
+    pub fn ne<R>(&self, _o: R) -> bool { true }
+    pub fn partial_cmp<R>(&self, _o: R) -> Option<Ordering> { None }
+    pub fn cmp<R>(&self, _o: R) -> Ordering { Ordering::Less }
+    pub fn hash<R>(&self, _h: R) {}
+    pub fn fmt<R>(&self, _f: R) -> core::fmt::Result { Ok(()) }
+    pub fn clone_from<R>(&mut self, _s: R) {}
+}
+impl P {
+    pub fn eq<R>(&self, _o: R) -> bool { true }
+    pub fn partial_cmp<R>(&self, _o: R) -> Option<Ordering> { Some(Ordering::Less) }
+}
 
 pub fn rv(o: Option<Ordering>) -> Option<Ordering> { match o { Some(x) => Some(x.reverse()), None => None } }
 /// a byte view of a field value, so that key / by functions exist for every pool type
